@@ -660,6 +660,16 @@ Definition p_gen {A : Type} (sel : list string -> A) (cfg : config) (t0 : Z) (m 
       end
     | _, _ => (m, ""%string)
     end in
+  (* the task keeps its identity while its operation set changes (duplicates attach, abandoned operations are
+     collected): follow every entry through the post dump; an entry whose worker no longer holds the task is dropped *)
+  let m := m <| m_reissue := flat_map (fun '(w, (ops0, n)) =>
+                               match find_dworker post (w_sk w) (wid w) with
+                               | Some k => match dw_task k with
+                                           | Some ops' => if shares_op ops0 ops' then [(w, (ops', n))] else []
+                                           | None => []
+                                           end
+                               | None => []
+                               end) (m_reissue m) |> in
   (* C06/C02: "retry limit reached" is a stated cause only at the re-request after the configured number of them *)
   let e_early := first_nonempty (map (fun o1 =>
                   match do_resp o1, find_dop pre (do_name o1) with
